@@ -69,6 +69,8 @@ static void build_file(const char *seq, int magic_variant, int trailing, vbuf *o
 	}
 	if (trailing == 1) vb_put(out, "\x00", 1);
 	if (trailing == 2) rtlv_put(out, 0x0703, 0, 0, "", 0, 0);
+	if (trailing == 3) rtlv_put(out, 0x0705, 1, 0, "\x01\x02", 2, 0);
+	if (trailing == 4) rtlv_put(out, 0x1d, 1, 0, "\x01", 1, 0);
 }
 
 /* reference structure rule: 1 accept, 0 reject, -1 the statement is silent */
@@ -86,8 +88,7 @@ static int ref_structure(const char *seq, int magic_variant, int trailing) {
 	while (*p == 'P' || *p == 'N') p++;
 	if (*p != 'S') return 0;
 	p++;
-	while (*p == 'N') { p++; silent = 1; }
-	if (*p) return 0;
+	if (*p) return 0;                /* the signature record is the final record: nothing, known or unknown, may follow it */
 	return silent ? -1 : 1;
 }
 
@@ -104,9 +105,9 @@ static void part_structure(void) {
 			int variant;
 			for (i = 0; i < len; i++) { seq[i] = ALPHA[x % 6]; x /= 6; }
 			seq[len] = 0;
-			for (variant = 0; variant < 5; variant++) {
-				/* variants: 0 plain, 1 wrong magic, 2 truncated magic, 3 trailing byte, 4 trailing empty publication record */
-				int magic = variant == 1 ? 1 : variant == 2 ? 2 : 0, trailing = variant == 3 ? 1 : variant == 4 ? 2 : 0;
+			for (variant = 0; variant < 7; variant++) {
+				/* variants: 0 plain, 1 wrong magic, 2 truncated magic, 3 trailing byte, 4 trailing empty publication record, 5/6 trailing unknown non-critical record (TLV16 / TLV8) */
+				int magic = variant == 1 ? 1 : variant == 2 ? 2 : 0, trailing = variant == 3 ? 1 : variant == 4 ? 2 : variant == 5 ? 3 : variant == 6 ? 4 : 0;
 				vbuf b;
 				size_t sig_off = 0, sdl = 0;
 				int nsig = 0, exp, res;
